@@ -17,6 +17,7 @@ CONSTANTS Cfg,          \* configuration record (see EudoxiaOps)
           PoolChoices,  \* pool ids it may name (includes one out-of-range id)
           MaxTick, MaxAsg, MaxOps,
           CollapseCrash, \* TRUE: crash states collapse to one sink per reason (pure model checking)
+          CrossPipe,     \* TRUE: one assignment may mix operators of different pipelines
           Admissible     \* TRUE: the scheduler only issues batches the executor accepts (long behaviours for replay/simulation)
 
 VARIABLES s, tick, phase, sus, asg
@@ -24,7 +25,8 @@ vars == <<s, tick, phase, sus, asg>>
 
 OpRefs(p) == {<<p, i>> : i \in 1..Len(WL[p].ops)}
 SeqsNoRep(S, n) == UNION {{q \in [1..m -> S] : \A a, b \in 1..m : a # b => q[a] # q[b]} : m \in 1..n}
-OpSeqs == UNION {SeqsNoRep(OpRefs(p), MaxOps) : p \in 1..Len(WL)}
+OpSeqs == IF CrossPipe THEN SeqsNoRep(UNION {OpRefs(p) : p \in 1..Len(WL)}, MaxOps)
+          ELSE UNION {SeqsNoRep(OpRefs(p), MaxOps) : p \in 1..Len(WL)}
 Assignments == {[ops |-> q, cpu |-> c, ram |-> r, pool |-> k] : q \in OpSeqs, c \in CpuChoices, r \in RamChoices, k \in PoolChoices}
 AsgBatches == {<<>>} \cup {<<a>> : a \in Assignments}
                      \cup (IF MaxAsg >= 2 THEN {<<a, b>> : a \in Assignments, b \in Assignments} ELSE {})
